@@ -74,7 +74,7 @@ import multiprocessing as mp
 from functools import partial
 from pickle import PicklingError
 from concurrent.futures import Executor
-from concurrent.futures._base import LOGGER
+from concurrent.futures._base import LOGGER, InvalidStateError
 from concurrent.futures.process import BrokenProcessPool as _BPPException
 from multiprocessing.connection import wait
 
@@ -831,7 +831,11 @@ class _ExecutorManagerThread(threading.Thread):
 
         # Mark pending tasks as failed.
         for work_item in self.pending_work_items.values():
-            work_item.future.set_exception(bpe)
+            try:
+                work_item.future.set_exception(bpe)
+            except InvalidStateError:
+                # The future was cancelled while it was waiting in the table.
+                pass
             # Delete references to object. See issue16284
             del work_item
         self.pending_work_items.clear()
@@ -852,12 +856,18 @@ class _ExecutorManagerThread(threading.Thread):
         if self.executor_flags.kill_workers:
             while self.pending_work_items:
                 _, work_item = self.pending_work_items.popitem()
-                work_item.future.set_exception(
-                    ShutdownExecutorError(
-                        "The Executor was shutdown with `kill_workers=True` "
-                        "before this job could complete."
+                try:
+                    work_item.future.set_exception(
+                        ShutdownExecutorError(
+                            "The Executor was shutdown with "
+                            "`kill_workers=True` before this job could "
+                            "complete."
+                        )
                     )
-                )
+                except InvalidStateError:
+                    # The future was cancelled while it was waiting in the
+                    # table.
+                    pass
                 del work_item
 
             # The work ids still waiting in the queue refer to the work items
